@@ -7,7 +7,13 @@ Search, per EVENT message: exactly one OK frame; OK=true only if the event is th
 and broadcast, or superseded by a newer stored version of its address); a well-formed event passing the
 validators is never refused except as a duplicate; OK=false leaves no trace (stored set unchanged, nothing
 broadcast to an observer); a resubmission changes nothing and is not broadcast again.
+The same sessions are also run as ONE WORKER OF SEVERAL (the relay configured with several gunicorn workers / run_notifier, so
+that storage.notifier exists) with the link to the notify server in every state it can be in while clients submit events: up,
+not open yet (the first seconds after start-up), refused, opening in the middle of the session, lost (drain() raises), slow.
+What becomes of the announcement to the sibling workers is not the submitter's business: the OK it gets must still say what
+happened to its event.
 """
+import asyncio
 import copy
 import json
 import random
@@ -76,11 +82,169 @@ def non_int_created_at(rng, keys):
     return ("float-created_at", ev.to_json_object())
 
 
-def run_session(report, drv, backend, rng, keys, tag):
-    relay = Relay(backend)
+class WorkerLink:
+    """This worker's link to the notify server, played by the harness (no sockets).  The relay is configured as one worker of
+    several *before* the storage is set up, so that the real BaseStorage.setup() creates and starts the real NotifyClient; what
+    the harness controls is what `asyncio.open_connection` gives that client, i.e. the state of the link while events arrive:
+      up          the link opens at once and every announcement is written
+      starting    the link is not open yet (NotifyClient opens it seconds after start-up): NotifyClient.writer is None
+      unreachable the notify server refuses the connection: the client's connect task has ended, writer stays None
+      up-later    as `starting`, and the link opens before the k-th submission of the session
+      lost        the link opens; from the k-th announcement on drain() raises (connection reset / broken pipe) and what is
+                  written is discarded, as a transport does once the connection is lost
+      slow        drain() takes several rounds of the event loop
+    k is drawn from the session's rng.  Nothing here looks at how the storage hands an announcement to the client; the oracle
+    is the one of every other session (the OK frame against stored set, keyspace and what an observer was pushed)."""
+    MODES = ("up", "starting", "unreachable", "up-later", "lost", "slow")
+
+    def __init__(self, rng, mode):
+        self.mode = mode
+        self.how = rng.choice(["gunicorn-workers", "run_notifier"])
+        self.workers = rng.choice([2, 3, 8])
+        self.k = rng.randint(1, 4)
+        self.error = rng.choice([ConnectionResetError, BrokenPipeError])
+        self.rounds = rng.randint(2, 6)
+        self.written = []           # what reached the notify server (hex)
+        self.dials = 0
+        self.writes = 0
+        self.broken = False
+        self.reader = None
+        self.gate = asyncio.Event()
+        self._config = None
+        self._patched = None
+
+    def describe(self):
+        return {"link": self.mode, "configured_by": self.how, "workers": self.workers, "k": self.k, "error": self.error.__name__}
+
+    # -- around the set-up of the storage ----------------------------------------------------------------
+    def configure(self):
+        from lib import proto
+
+        common.setup_paths()
+        from nostr_relay.config import Config
+
+        self._config = (Config.__dict__.get("gunicorn"), "run_notifier" in Config.__dict__, Config.__dict__.get("run_notifier"))
+        self._patched = asyncio.open_connection
+        if self.how == "gunicorn-workers":
+            Config.gunicorn = dict(Config.gunicorn or {}, workers=self.workers)
+        else:
+            Config.run_notifier = True
+        link = self
+
+        async def open_connection(host=None, port=None, **kw):
+            link.dials += 1
+            if link.mode == "unreachable":
+                raise ConnectionRefusedError(111, "Connect call failed (%r, %r)" % (host, port))
+            if link.mode in ("starting", "up-later"):
+                await link.gate.wait()
+            link.reader = asyncio.StreamReader()
+            return link.reader, _LinkWriter(link)
+
+        asyncio.open_connection = open_connection
+        # NotifyClient.connect sleeps before it dials, and its task may take its first step during setup(): the shortened sleep
+        # that Relay() installs anyway (and Relay.close() removes) has to be in place before
+        asyncio.sleep = proto._fast_sleep
+
+    def restore_config(self):
+        """the configuration is global: put it back as soon as the storage has been set up"""
+        from nostr_relay.config import Config
+
+        if self._config is None:
+            return
+        gunicorn, had, run_notifier = self._config
+        self._config = None
+        Config.gunicorn = gunicorn
+        if had:
+            Config.run_notifier = run_notifier
+        else:
+            Config.__dict__.pop("run_notifier", None)
+
+    def restore(self):
+        from lib import proto
+
+        self.restore_config()
+        if self._patched is not None:
+            asyncio.open_connection = self._patched
+            self._patched = None
+        asyncio.sleep = proto._real_sleep
+
+    def before_submission(self, relay, n):
+        """n = 1 for the first EVENT message of the session"""
+        if self.mode == "up-later" and n == self.k and not self.gate.is_set():
+            self.gate.set()
+            relay.settle()
+
+    def hang_up(self, relay):
+        """the worker shuts down: end the client's connect task (BaseStorage.close does not) and collect its outcome"""
+        task = getattr(getattr(relay.storage, "notifier", None), "_task", None)
+        if task is None:
+            return
+
+        async def go():
+            if not task.done():
+                task.cancel()
+            await asyncio.gather(task, return_exceptions=True)
+        try:
+            relay.run(go())
+        except Exception:
+            pass
+
+
+class _LinkWriter:
+    """the StreamWriter half of the link"""
+
+    def __init__(self, link):
+        self.link = link
+        self.closed = False
+
+    def write(self, data):
+        self.link.writes += 1
+        if not self.link.broken:
+            self.link.written.append(bytes(data).hex())
+
+    async def drain(self):
+        link = self.link
+        if link.broken or (link.mode == "lost" and link.writes >= link.k):
+            link.broken = True
+            raise link.error("Connection lost")
+        if link.mode == "slow":
+            from lib import proto
+
+            for _ in range(link.rounds):
+                await proto._real_sleep(0.001)
+
+    def close(self):
+        self.closed = True
+
+    def is_closing(self):
+        return self.closed
+
+    async def wait_closed(self):
+        return None
+
+    def get_extra_info(self, name, default=None):
+        return default
+
+
+def run_session(report, drv, backend, rng, keys, tag, link=None):
+    """link: a WorkerLink — the session runs in a relay that is one worker of several (storage.notifier exists)"""
+    if link is not None:
+        link.configure()
     try:
+        relay = Relay(backend)
+    except BaseException:
+        if link is not None:
+            link.restore()
+        raise
+    try:
+        if link is not None:
+            link.restore_config()
+            if getattr(relay.storage, "notifier", None) is None:
+                # nothing to exercise: the configuration did not make this storage a worker among several
+                report.count("multiworker_sessions_without_a_notifier_" + backend)
+            relay.settle()
         obs = Conn(relay, remote_addr="9.9.9.9")
-        obs.send(["REQ", "watch", {"kinds": [0, 1, 5, 7, 10002, 30000, 20001]}])
+        obs.send(["REQ", "watch", {"kinds": [0, 1, 5, 7, 10002, 30000, 20000, 20001, 29999]}])
         # further live subscriptions of other clients, with tag conditions: whatever happens to *their* notification (a tag
         # value their matcher cannot digest, a subscriber whose delivery fails) is not the next publisher's business
         other = Conn(relay, remote_addr="8.8.8.8")
@@ -123,6 +287,17 @@ def run_session(report, drv, backend, rng, keys, tag):
             note = relay.signed_event(sk, kind=1, content="arrives after its deletion", created_at=T0 + 600)
             dele = relay.signed_event(sk, kind=5, content="", tags=[["e", note["id"]]], created_at=T0 + 700)
             subs += [("valid", dele), ("valid", note), ("resubmission", copy.deepcopy(dele))]
+        if link is not None:
+            # every multi-worker session has what is announced to the siblings on either backend — an event that is stored and
+            # an ephemeral one (never stored, fanned out and announced straight from add_event) — and a resubmission of the first
+            sk = rng.choice(keys)
+            note = relay.signed_event(sk, kind=rng.choice([1, 7, 30000]), content="announced to the sibling workers %s" % tag,
+                                      tags=[["d", "w"]], created_at=T0 + 800)
+            eph = relay.signed_event(sk, kind=rng.choice([20000, 20001, 29999]), content="typing %s" % tag, created_at=T0 + 801)
+            for item in (("valid", note), ("valid", eph)):
+                subs.insert(rng.randrange(len(subs) + 1), item)
+            at = [i for i, (_, e) in enumerate(subs) if e is note][0]
+            subs.insert(rng.randrange(at + 1, len(subs) + 1), ("resubmission", copy.deepcopy(note)))
         lines = [{"op": "kv.reset"}] if backend == "kv" else [{"op": "sql.reset"}]
         expect = ["ok"]
         by_id = {}
@@ -134,12 +309,16 @@ def run_session(report, drv, backend, rng, keys, tag):
             before = relay.store.ids()
             dump_before = relay.store.dump()
             n_c, n_o = len(c.out), len(obs.out)
+            if link is not None:
+                link.before_submission(relay, len(prefix))
             c.send(["EVENT", ev])
             after = relay.store.ids()
             frames = c.frames(n_c)
             oks = [f for f in frames if isinstance(f, list) and f and f[0] == "OK"]
             pushed = [f for f in obs.frames(n_o) if isinstance(f, list) and f[0] == "EVENT" and f[2].get("id") == ev.get("id")]
             payload = {"backend": backend, "submissions": [[l, e] for l, e in prefix]}
+            if link is not None:
+                payload["one_worker_of_several"] = link.describe()
             by_id.setdefault(ev["id"], ev)
             if len(oks) != 1:
                 report.property_failure("%s: %d OK frames for one EVENT message (%s)" % (backend, len(oks), label), payload, None)
@@ -209,11 +388,27 @@ def run_session(report, drv, backend, rng, keys, tag):
         other.close()
         if relay.open_subscriptions():
             report.property_failure("%s: subscriptions survive their connections" % backend, {"backend": backend}, None)
-        report.case((backend, tag, json.dumps([e["id"] for _, e in subs])), nontrivial=any(l != "valid" for l, _ in subs),
-                    sample={"backend": backend, "labels": [l for l, _ in subs]})
-        report.count("sessions_" + backend)
+        if link is None:
+            report.case((backend, tag, json.dumps([e["id"] for _, e in subs])), nontrivial=any(l != "valid" for l, _ in subs),
+                        sample={"backend": backend, "labels": [l for l, _ in subs]})
+            report.count("sessions_" + backend)
+        else:
+            report.case((backend, "one-worker-of-several", link.mode, tag, json.dumps([e["id"] for _, e in subs])), nontrivial=True,
+                        sample={"backend": backend, "one_worker_of_several": link.describe(), "labels": [l for l, _ in subs],
+                                "announcements_that_reached_the_notify_server": len(link.written)})
+            report.count("multiworker_sessions_%s_link_%s" % (backend, link.mode))
+            report.count("multiworker_announcements_attempted", link.writes)
+            report.count("multiworker_announcements_delivered", len(link.written))
+            if link.dials:
+                report.count("multiworker_sessions_in_which_the_real_NotifyClient_dialled")
     finally:
-        relay.close()
+        if link is not None:
+            link.hang_up(relay)
+        try:
+            relay.close()
+        finally:
+            if link is not None:
+                link.restore()
 
 
 def burst_duplicates(report, backend, rng, keys, tag):
@@ -334,7 +529,10 @@ def run(report, tier, seed):
         "signatures, tampered content, events that LMDB cannot store (600-byte tag value, non-ASCII tag values around the 511-byte "
         "key limit, 2**70 in a tag, float created_at), "
         "nested-array tag values; the same event three times in one burst on two connections; on LMDB with the real writer thread "
-        "also resubmitted while its first copy is being written (another writer holds the write lock); non-trivial = the session contains something other than plain valid events")
+        "also resubmitted while its first copy is being written (another writer holds the write lock); the same sessions (plus a stored event, "
+        "its resubmission and an ephemeral event) in a relay set up as one worker of several (gunicorn workers > 1 / run_notifier: the real "
+        "NotifyClient created by setup()), with the link to the notify server up / not open yet / refused / opening mid-session / lost "
+        "(drain raises) / slow; non-trivial = the session contains something other than plain valid events")
     report.assumptions += ["quiescence: the loop is settled and the LMDB writer drained after every message"]
     try:
         for i in range(2 if tier == "quick" else 30):
@@ -345,6 +543,11 @@ def run(report, tier, seed):
         for i in range(14 if tier == "quick" else 300):
             for backend in ("sql", "kv"):
                 run_session(report, drv, backend, rng, keys, i)
+        # one worker of several: every state of the link to the notify server x both backends (quick: once each; thorough: 20 times)
+        for i in range(1 if tier == "quick" else 20):
+            for mode in WorkerLink.MODES:
+                for backend in ("sql", "kv"):
+                    run_session(report, drv, backend, rng, keys, "w%d" % i, link=WorkerLink(rng, mode))
     finally:
         drv.close()
 
